@@ -524,7 +524,7 @@ func runC14(c *Ctx) {
 		e := effOf(c)
 		bad := ""
 		for _, w := range e.WritesFrom(roots...) {
-			if _, ok := allowedMemo(w); ok {
+			if _, ok := allowedMemo(c.P, w); ok {
 				continue
 			}
 			bad = fmt.Sprintf("%s: %s writes %s from a query without synchronisation (%s)", c.P.Pos(w.Instr.Pos()), shortFn(w.Fn), w.What, w.Kind)
